@@ -102,8 +102,8 @@ func VerifC19Where() {
 		s := string(rune('0' + i))
 		c := cmp{onEpoch: rt.Fix(rt.Int("on_epoch"+s, 0, 1)) == 1, op: vOps[int(rt.Fix(rt.Int("op"+s, 0, 4)))]}
 		if c.onEpoch {
-			// a datetime literal: whole seconds from one day before the first bar to one day after the last
-			c.lit = (t0 - vDay + rt.Int("epoch_lit_sec"+s, 0, 5*vDay)) * 1000000000
+			// a datetime literal: a whole second from one day before the first bar to one day after the last, +-500 ns
+			c.lit = (t0-vDay+rt.Int("epoch_lit_sec"+s, 0, 5*vDay))*1000000000 + rt.Int("epoch_lit_ns"+s, -500, 500)
 			vAddComparison(spg, "Epoch", c.op, c.lit)
 			if c.op == io.LTE || c.op == io.GTE {
 				inclusiveEpoch = true
@@ -153,7 +153,15 @@ func VerifC19Where() {
 		}
 	}
 	// recorded finding of the pinned tree: `V = a AND V = b` keeps only the last equality
-	_, _ = inclusiveEpoch, sameDirection
+	_ = inclusiveEpoch
+	// bounds are compared as float64: two Epoch bounds in the same direction less than 512 ns apart can
+	// compare equal, and the looser one is kept
+	closeEpochBounds := false
+	if len(cs) == 2 && cs[0].onEpoch && cs[1].onEpoch && sameDirection {
+		d := cs[0].lit - cs[1].lit
+		closeEpochBounds = d < 512 && d > -512
+	}
+	rt.Region("C19-epoch-bounds-compared-in-float64-precision", closeEpochBounds)
 	rt.Region("C19-two-equalities-on-one-column-keep-only-the-last", twoEq)
 	rt.Assert(len(gotE) == len(wantE), "exactly-the-matching-rows")
 	for i := range wantE {
